@@ -621,6 +621,17 @@ class Machine:
             # outlives the call.
             if _INTERIOR.search(ms.group(1)) or ms.group(1).startswith(('*mut', '&mut')):
                 raise Ambient('static', ms.group(1)[:160])
+            # an immutable static with plain data: evaluate its initialiser like a constant
+            mod = getattr(frame.fn, 'module', self.module)
+            an = re.match(r'^\{(alloc\d+):', text).group(1)
+            name = getattr(mod, 'static_allocs', {}).get(an)
+            if name is not None:
+                for cname, cf in mod.consts.items():
+                    if cname == name or cname.endswith('::' + name) or name.endswith('::' + cname):
+                        if cf.header.startswith('static mut'):
+                            raise Ambient('static', '%s (static mut)' % name)
+                        v = self.eval_const_body(cf)
+                        return v if isinstance(v, Ref) else self.heap.alloc(v)
             raise EncoderGap('reference to static allocation %s' % text[:120])
         h = self.contracts.const_path(self, text, dest_ty)
         if h is not None:
